@@ -15,12 +15,15 @@ HOLDS, VIOLATION, UNDECIDED = 'HOLDS', 'VIOLATION', 'UNDECIDED'
 
 class Ob:
     """one rule instance evaluated on one construct"""
-    __slots__ = ('rule', 'file', 'function', 'statement', 'verdict', 'reason', 'line', 'clause')
+    __slots__ = ('rule', 'file', 'function', 'statement', 'verdict', 'reason', 'line', 'clause', 'fkey')
 
-    def __init__(self, rule, file, function, statement, verdict, reason, line=0, clause=''):
+    def __init__(self, rule, file, function, statement, verdict, reason, line=0, clause='', fkey=None):
         self.rule, self.file, self.function = rule, file, function
         self.statement, self.verdict, self.reason = statement, verdict, reason
         self.line, self.clause = line, clause
+        # what fails, named independently of how the source spells it (survives refactoring):
+        # known findings are matched on it when the rule provides one
+        self.fkey = fkey
 
     def key(self):
         return (self.rule, self.file, self.function, self.statement)
@@ -28,7 +31,7 @@ class Ob:
     def as_dict(self):
         return {'rule': self.rule, 'file': self.file, 'function': self.function,
                 'statement': self.statement, 'verdict': self.verdict, 'reason': self.reason,
-                'line': self.line, 'clause': self.clause}
+                'line': self.line, 'clause': self.clause, **({'finding_key': self.fkey} if self.fkey else {})}
 
 
 class Ctx:
@@ -43,22 +46,22 @@ class Ctx:
         self.max_paths = 4096 if tier == 'quick' else 8 * 4096
 
     # -- recording
-    def ob(self, rule, where, statement, ok, reason='', line=0, clause=''):
+    def ob(self, rule, where, statement, ok, reason='', line=0, clause='', key=None):
         """``where``: FuncInfo | (file, function) ;  ok: True/False/None(undecided)"""
         if hasattr(where, 'file'):
             file, function = where.file, getattr(where, 'qual', '')
         else:
             file, function = where
         verdict = HOLDS if ok is True else VIOLATION if ok is False else UNDECIDED
-        o = Ob(rule, file, function, statement, verdict, reason, line, clause)
+        o = Ob(rule, file, function, statement, verdict, reason, line, clause, key)
         self.obs.append(o)
         return ok
 
     def holds(self, rule, where, statement, reason='', line=0, clause=''):
         return self.ob(rule, where, statement, True, reason, line, clause)
 
-    def violation(self, rule, where, statement, reason='', line=0, clause=''):
-        return self.ob(rule, where, statement, False, reason, line, clause)
+    def violation(self, rule, where, statement, reason='', line=0, clause='', key=None):
+        return self.ob(rule, where, statement, False, reason, line, clause, key)
 
     def undecided(self, rule, where, statement, reason='', line=0, clause=''):
         return self.ob(rule, where, statement, None, reason, line, clause)
@@ -89,8 +92,13 @@ def match_known(prop, ob, known):
     for k in known:
         if k.get('status', 'known') != 'known':
             continue                      # fixed entries suppress nothing
-        if k['property'] == prop and k['rule'] == ob.rule and k['file'] == ob.file \
-                and k['function'] == ob.function and k['statement'] == ob.statement:
+        if k['property'] != prop or k['rule'] != ob.rule:
+            continue
+        if k.get('key'):
+            if ob.fkey == k['key']:
+                return k
+            continue
+        if k['file'] == ob.file and k['function'] == ob.function and k['statement'] == ob.statement:
             return k
     return None
 
